@@ -53,7 +53,7 @@ pub enum FaultKind {
     /// accept only `1 + r % (len-1)` bytes at this call
     Short(u32),
     /// `Err(Interrupted)` at this call and the following `burst-1` calls
-    Interrupted(u8),
+    Interrupted(u16),
     /// `Err(kind)`; sticky = every later call fails too
     Hard(ErrK, bool),
     /// `Ok(0)` for a non-empty buffer; sticky = forever
@@ -110,7 +110,7 @@ impl SinkPlan {
             let at = f.get("at")?.as_u64()?;
             let kind = match f.get("kind")?.as_str()? {
                 "short" => FaultKind::Short(f.get("r")?.as_u64()? as u32),
-                "interrupted" => FaultKind::Interrupted(f.get("burst")?.as_u64()? as u8),
+                "interrupted" => FaultKind::Interrupted(f.get("burst")?.as_u64()? as u16),
                 "hard" => FaultKind::Hard(ErrK::from_name(f.get("err")?.as_str()?)?, f.get("sticky")?.as_bool()?),
                 "zero" => FaultKind::Zero(f.get("sticky")?.as_bool()?),
                 _ => return None,
@@ -153,7 +153,7 @@ impl SinkPlan {
                 };
                 let kind = match *rng.pick(&enabled) {
                     0 => FaultKind::Short(rng.next_u64() as u32),
-                    1 => FaultKind::Interrupted(rng.range(1, 3) as u8),
+                    1 => FaultKind::Interrupted(if rng.chance(1, 6) { *rng.pick(&[63u16, 64, 65, 127, 128, 129, 255, 256, 1000]) } else { rng.range(1, 3) as u16 }),
                     2 => FaultKind::Hard(*rng.pick(&ErrK::ALL), true),
                     3 => FaultKind::Hard(*rng.pick(&ErrK::ALL), false),
                     _ => FaultKind::Zero(rng.chance(1, 2)),
@@ -203,7 +203,7 @@ pub struct SimSink<'p> {
     pub log: Digest,
     dead: Option<ErrK>,
     zero_forever: bool,
-    interrupted_left: u8,
+    interrupted_left: u16,
     transient_seen: bool,
     /// a writer that keeps calling a sink which no longer accepts anything never terminates;
     /// beyond this many calls the sink panics with CALL_BUDGET_MARK (turned into a verdict)
